@@ -232,16 +232,10 @@ unsafe fn reg_cases<T: Bits, R: SimdRegister<T>>(reg: &str, fused: bool, rng: &m
         }
         bin!("max", max);
         bin!("min", min);
-        // fused multiply-add is only compared on exactly representable data
-        let (fx, fy, fz): (Vec<T>, Vec<T>, Vec<T>) = if T::FLOAT && (fused || class == 0) {
-            (
-                (0..l).map(|_| gen_val::<T>(rng, 1)).collect(),
-                (0..l).map(|_| gen_val::<T>(rng, 1)).collect(),
-                (0..l).map(|_| gen_val::<T>(rng, 1)).collect(),
-            )
-        } else {
-            (x.clone(), y.clone(), z.clone())
-        };
+        // fused multiply-add: arbitrary bit patterns (the model driver has an exact software fma); NaN payloads
+        // are canonicalised by the comparison
+        let _ = fused;
+        let (fx, fy, fz): (Vec<T>, Vec<T>, Vec<T>) = (x.clone(), y.clone(), z.clone());
         out.push(format!(
             "{head} fmadd r:{} r:{} r:{}\tok {}",
             hexlist(&fx),
@@ -265,7 +259,7 @@ unsafe fn reg_cases<T: Bits, R: SimdRegister<T>>(reg: &str, fused: bool, rng: &m
         out.push(format!("{head} write m:{} o:{:x} r:{}\tok {}", hexlist(&mem), off, hexlist(&x), hexlist(&m2)));
         // dense forms (every 4th case: they are eight times as long)
         if c % 4 == 0 {
-            let dclass = if T::FLOAT { if fused { 1 } else { 2 } } else { 0 };
+            let dclass = if T::FLOAT { 2 } else { 0 };
             let dx: Vec<T> = (0..8 * l).map(|_| gen_val::<T>(rng, dclass)).collect();
             let dy: Vec<T> = (0..8 * l).map(|_| gen_val::<T>(rng, dclass)).collect();
             let dz: Vec<T> = (0..8 * l).map(|_| gen_val::<T>(rng, dclass)).collect();
@@ -285,9 +279,9 @@ unsafe fn reg_cases<T: Bits, R: SimdRegister<T>>(reg: &str, fused: bool, rng: &m
             }
             dbin!("max_dense", max_dense);
             dbin!("min_dense", min_dense);
-            let sx: Vec<T> = if T::FLOAT { (0..8 * l).map(|_| gen_val::<T>(rng, 1)).collect() } else { dx.clone() };
-            let sy: Vec<T> = if T::FLOAT { (0..8 * l).map(|_| gen_val::<T>(rng, 1)).collect() } else { dy.clone() };
-            let sz: Vec<T> = if T::FLOAT { (0..8 * l).map(|_| gen_val::<T>(rng, 1)).collect() } else { dz.clone() };
+            let sx: Vec<T> = dx.clone();
+            let sy: Vec<T> = dy.clone();
+            let sz: Vec<T> = dz.clone();
             out.push(format!(
                 "{head} fmadd_dense d:{} d:{} d:{}\tok {}",
                 hexlist(&sx),
@@ -407,6 +401,44 @@ fn is_reduction(op: &str) -> bool {
     matches!(op, "generic_sum" | "generic_squared_norm" | "generic_dot_product" | "generic_euclidean" | "generic_cosine")
 }
 
+/// the (register, kernel) an export's *name* promises: `<ty>_x{any,const}_<arch>_<fma|nofma>_<op>`
+fn name_binding(name: &str, ty: &str) -> Option<(&'static str, &'static str)> {
+    let rest = name.strip_prefix(ty)?.strip_prefix("_xany_").or_else(|| name.strip_prefix(ty)?.strip_prefix("_xconst_"))?;
+    let (arch, rest) = rest.split_once('_')?;
+    let (fma, op) = rest.split_once('_')?;
+    let reg = match (arch, fma) {
+        ("fallback", "nofma") => "Fallback",
+        ("avx2", "nofma") => "Avx2",
+        ("avx2", "fma") => "Avx2Fma",
+        ("avx512", _) => "Avx512",
+        ("neon", _) => "Neon",
+        _ => return None,
+    };
+    let kernel = match op {
+        "dot" => "generic_dot_product",
+        "cosine" => "generic_cosine",
+        "squared_euclidean" => "generic_euclidean",
+        "squared_norm" => "generic_squared_norm",
+        "sum" => "generic_sum",
+        "max_horizontal" => "generic_max_horizontal",
+        "min_horizontal" => "generic_min_horizontal",
+        "max_vertical" => "generic_max_vertical",
+        "min_vertical" => "generic_min_vertical",
+        "max_value" => "generic_max_value",
+        "min_value" => "generic_min_value",
+        "add_value" => "generic_add_value",
+        "sub_value" => "generic_sub_value",
+        "mul_value" => "generic_mul_value",
+        "div_value" => "generic_div_value",
+        "add_vector" => "generic_add_vector",
+        "sub_vector" => "generic_sub_vector",
+        "mul_vector" => "generic_mul_vector",
+        "div_vector" => "generic_div_vector",
+        _ => return None,
+    };
+    Some((reg, kernel))
+}
+
 macro_rules! kern_for_type {
     ($t:ty, $r1:ident, $r2:ident, $m2:ident, $m1:ident, $rng:expr, $cases:expr, $out:expr) => {{
         let metas: Vec<&tables::ExportMeta> = tables::EXPORT_META.iter().filter(|m| m.ty == <$t as Bits>::NAME).collect();
@@ -427,7 +459,10 @@ macro_rules! kern_for_type {
                 }
                 let class = if <$t as Bits>::FLOAT {
                     if is_reduction(m.op) {
-                        1
+                        // stable builds evaluate strictly in source order, which the model reproduces operation by
+                        // operation (incl. fused multiply-add): arbitrary moderate data, compared bit for bit.
+                        // nightly fast-math may reassociate the scalar tail: exactly representable data only
+                        if nightly_float { 1 } else { [2, 2, 1][c % 3] }
                     } else if nightly_float && m.op.contains("div") {
                         2
                     } else {
@@ -440,7 +475,16 @@ macro_rules! kern_for_type {
                 let b: Vec<$t> = (0..n).map(|_| gen_val::<$t>($rng, class)).collect();
                 let pre: Vec<$t> = (0..n).map(|_| gen_val::<$t>($rng, 0)).collect();
                 let v: $t = gen_val::<$t>($rng, class);
-                let head = format!("kern {} {} {} {:x}", m.reg, m.ty, m.op, n);
+                // the request names the (register, kernel) the export table binds; when the export's *name* promises a
+                // different pair (C11), a second request asks the model for what the name promises as well
+                let mut bindings: Vec<(&str, &str)> = vec![(m.reg, m.op)];
+                if let Some(nb) = name_binding(m.xany, m.ty) {
+                    if nb != (m.reg, m.op) && !(nb.0 == "Avx512" && m.reg == "Avx512") {
+                        bindings.push(nb);
+                    }
+                }
+                for (breg, bop) in bindings {
+                let head = format!("kern {} {} {} {:x}", breg, m.ty, bop, n);
                 match m.kind {
                     "reduce1" => {
                         if let Some((_, f)) = tables::$r1.iter().find(|x| x.0 == m.xany) {
@@ -474,6 +518,7 @@ macro_rules! kern_for_type {
                             $out.push(format!("{head} v:{:x} m:{} m:{}\t{}", v.to_u64(), hexlist(&a), hexlist(&pre), r));
                         }
                     },
+                }
                 }
             }
         }
